@@ -76,6 +76,16 @@ func runC15(c *core.Ctx) error {
 	}
 	panicob.Discharge(c, r5, sites, panicob.Options{Table: table})
 	panicob.DischargePanics(c, r5, panicob.Panics(c, scope), table)
+
+	// ---- R15.6
+	r6 := c.NewRule("R15.6", "S1+S2", "sizes from ContentLength are sign-tested; recursive shape guards get a fresh visited set per root; ErrorHandler after an encoder only under the sentinel guard", 20)
+	rt, err := c.Program("./conv", "./json", "./http", "./validate", "./ogenerrors", "./middleware", "./uri", "./gen")
+	if err != nil {
+		return err
+	}
+	checkUntrustedSizes(c, r6, rt)
+	checkFreshVisitedSets(c, r6, rt, pkgGen)
+	checkErrorHandlerAfterEncoder(c, r6, ex)
 	return nil
 }
 
